@@ -1,4 +1,143 @@
-import BioCantor.Model.Qualifiers
+/-
+  C18 — identifier / qualifier extraction is order-independent and priority-respecting.
+
+  Property theorems only (helper lemmas: Proofs/Qual*.lean).  `Model.Qual.*` mirrors io/features/__init__.py,
+  io/gff3/parser.py and the locus-tag grouping of io/genbank/parser.py; `Gen.featureNameQualifiers` /
+  `Gen.featureIdQualifiers` are regenerated from the enums on every run; `Spec.Qual.ok*` are the reference
+  predicates the spec driver evaluates on the real library's answers.  `ansQ` = the observable answer
+  (`none` = raised).  Quantification is over ALL dictionaries (any length, any keys, any values, any case).
+
+  Two rules are modelled: `Rule.asCoded` (what /repo does today) and `Rule.repaired`
+  (`feature_key is None` instead of `not feature_key`; `\Z` instead of `$`).
+-/
+import BioCantor.Proofs.QualMerge
 namespace BioCantor.Props.C18
-theorem stub : True := trivial
+open BioCantor BioCantor.Spec.Qual BioCantor.Model.Qual BioCantor.Proofs.Qual
+
+/-- TIE: the regenerated enum tables agree with the documented priority order: same keys as the regexes,
+    every key a member of its enum, enum values increasing along the documented list, value 0 exactly for
+    the first key.  Reordering a priority in /repo makes this (and everything below) fail to compile. -/
+theorem gen_tables_match_documented_order :
+    famOK nameOrder nameRegexKeys Gen.featureNameQualifiers = true ∧
+    famOK idOrder idRegexKeys Gen.featureIdQualifiers = true :=
+  ⟨nameFamOK, idFamOK⟩
+
+/-- T1 (repaired rule): for every dictionary with distinct keys whose recognised keys carry a non-empty first
+    value, the call does not raise; name and ID are each the first value of a present key of LEAST rank in the
+    documented list (keys matched exactly, ignoring case); with no recognised key the `/note` word is used. -/
+theorem extract_spec (qs : QDict) (hd : extractDomain qs = true) :
+    okExtract qs (ansQ (extractWith Rule.repaired qs)) = true :=
+  extract_repaired_ok qs hd
+
+/-- T2 (repaired rule): ORDER INDEPENDENCE — every permutation of the dictionary gives the same (name, id),
+    provided no two present keys have the same rank (`gene` next to `GENE` is inherently order dependent). -/
+theorem extract_order_independent (qs qs' : QDict) (hp : qs.Perm qs') (hd : extractDomain qs = true)
+    (h1 : ranksDistinct nameOrder qs = true) (h2 : ranksDistinct idOrder qs = true) :
+    extractWith Rule.repaired qs' = extractWith Rule.repaired qs := by
+  have ha := extract_repaired_ok qs hd
+  have hb := extract_repaired_ok qs' (extractDomain_perm hp hd)
+  have hk : keysDistinct qs = true := by
+    simp only [extractDomain, Bool.and_eq_true] at hd; exact hd.1
+  rw [← okExtract_perm hp hk] at hb
+  have := okExtract_unique h1 h2 hb ha
+  apply ansQ_inj _ this
+  cases h : ansQ (extractWith Rule.repaired qs') with
+  | none => rw [h] at hb; cases hb
+  | some _ => rfl
+
+/- FULL STATEMENT for the code as it is (does NOT hold — F-C18a, F-C18b, witnesses below):
+     ∀ qs, extractDomain qs → okExtract qs (ansQ (extractWith Rule.asCoded qs)) = true
+   Proved part: all dictionaries without a rank-0 key (feature_name / feature_id in any case) and without a
+   key ending in a newline.  Missing: exactly the inputs on which the real code deviates. -/
+
+/-- T1 for the code as written, on inputs without a rank-0 key and without newline-terminated keys. -/
+theorem extract_spec_asCoded_partial (qs : QDict) (hd : extractDomain qs = true)
+    (hz : ∀ e ∈ qs, rank nameOrder e.1 ≠ some 0 ∧ rank idOrder e.1 ≠ some 0 ∧ e.1.getLast? ≠ some '\n') :
+    okExtract qs (ansQ (extractWith Rule.asCoded qs)) = true := by
+  rw [extract_coded_eq qs (fun e he => noZero_of_rank (hz e he).1 (hz e he).2.1 (hz e he).2.2)]
+  exact extract_repaired_ok qs hd
+
+/-- T2 for the code as written, same restriction. -/
+theorem extract_order_independent_asCoded_partial (qs qs' : QDict) (hp : qs.Perm qs') (hd : extractDomain qs = true)
+    (h1 : ranksDistinct nameOrder qs = true) (h2 : ranksDistinct idOrder qs = true)
+    (hz : ∀ e ∈ qs, rank nameOrder e.1 ≠ some 0 ∧ rank idOrder e.1 ≠ some 0 ∧ e.1.getLast? ≠ some '\n') :
+    extractWith Rule.asCoded qs' = extractWith Rule.asCoded qs := by
+  have hz' : ∀ e ∈ qs', NoZero e := fun e he =>
+    let h := hz e (hp.mem_iff.mpr he); noZero_of_rank h.1 h.2.1 h.2.2
+  rw [extract_coded_eq qs (fun e he => noZero_of_rank (hz e he).1 (hz e he).2.1 (hz e he).2.2),
+    extract_coded_eq qs' hz']
+  exact extract_order_independent qs qs' hp hd h1 h2
+
+/-- F-C18a witness: as coded, `{"feature_name": ["A"], "gene": ["B"]}` yields the name `B`; the reference
+    predicate rejects it, the reversed dictionary yields `A`, and the repaired rule yields `A` for both. -/
+theorem f_c18a_witness :
+    ansQ (extractWith Rule.asCoded [("feature_name".toList, ["A".toList]), ("gene".toList, ["B".toList])])
+      = some (some "B".toList, none) ∧
+    okExtract [("feature_name".toList, ["A".toList]), ("gene".toList, ["B".toList])] (some (some "B".toList, none))
+      = false ∧
+    ansQ (extractWith Rule.asCoded [("gene".toList, ["B".toList]), ("feature_name".toList, ["A".toList])])
+      = some (some "A".toList, none) ∧
+    ansQ (extractWith Rule.repaired [("feature_name".toList, ["A".toList]), ("gene".toList, ["B".toList])])
+      = some (some "A".toList, none) := by
+  decide +kernel
+
+/-- F-C18b witness: as coded, the look-alike key `"gene\n"` passes the `^gene$` regex and the enum lookup of
+    `"GENE\n"` raises KeyError; the property demands `(None, None)`, which the repaired rule returns. -/
+theorem f_c18b_witness :
+    (match extractWith Rule.asCoded [("gene\n".toList, ["x".toList])] with
+      | .error .keyError => true
+      | _ => false) = true ∧
+    okExtract [("gene\n".toList, ["x".toList])] (some (none, none)) = true ∧
+    ansQ (extractWith Rule.repaired [("gene\n".toList, ["x".toList])]) = some (none, none) := by
+  decide +kernel
+
+/-- T3: `extract_feature_types` — the resulting set is the initial set plus every value of every key that
+    contains `_class`, `gbkey` or `_type` (any case); reported sorted, it satisfies the reference predicate. -/
+theorem types_spec (init : List Str) (qs : QDict) :
+    okTypes init qs (some (sortStrs (extractTypes init qs))) = true := by
+  simp only [okTypes, Bool.and_eq_true]
+  refine ⟨sortedStrict_of_pairwise (sortStrs_strict (extractTypes_nodup init qs)), ?_⟩
+  rw [sameSet_iff]
+  intro x
+  rw [mem_sortStrs, extractTypes_mem, expectedTypes_mem]
+
+/-- T3b: the type set does not depend on the order of the qualifiers (nor of the initial types). -/
+theorem types_order_independent (init init' : List Str) (qs qs' : QDict) (hi : init.Perm init') (hp : qs.Perm qs') :
+    sortStrs (extractTypes init qs) = sortStrs (extractTypes init' qs') := by
+  apply strict_ext (sortStrs_strict (extractTypes_nodup _ _)) (sortStrs_strict (extractTypes_nodup _ _))
+  intro x
+  rw [mem_sortStrs, mem_sortStrs, extractTypes_mem, extractTypes_mem]
+  constructor
+  · rintro (h | ⟨e, he, h⟩)
+    · exact Or.inl (hi.mem_iff.mp h)
+    · exact Or.inr ⟨e, hp.mem_iff.mp he, h⟩
+  · rintro (h | ⟨e, he, h⟩)
+    · exact Or.inl (hi.mem_iff.mpr h)
+    · exact Or.inr ⟨e, hp.mem_iff.mpr he, h⟩
+
+/-- T4: `merge_qualifiers` is a key-wise set union with sorted values: the result has distinct keys, its key
+    set is the union of the two key sets, and every value list is the strictly sorted union of that key's values. -/
+theorem merge_spec (a b : QDict) : okMerge a b (some (mergeQualifiers a b)) = true :=
+  merge_ok a b
+
+/-- T4b: commutative up to the order of keys. -/
+theorem merge_comm (a b : QDict) (k : Str) :
+    lookupExact k (mergeQualifiers a b) = lookupExact k (mergeQualifiers b a) :=
+  merge_comm_lookup a b k
+
+/-- T4c: idempotent — merging a dictionary with itself only sorts and de-duplicates each value list. -/
+theorem merge_idem (a : QDict) (ha : keysDistinct a = true) (k : Str) :
+    lookupExact k (mergeQualifiers a a) = (lookupExact k a).map fun vs => sortStrs (setUpdate [] vs) :=
+  merge_self_lookup a ha k
+
+-- non-vacuity of the hypotheses: a dictionary in the domain with distinct ranks, mixed case, look-alikes
+-- and a note; and one satisfying the `_partial` restriction
+example : extractDomain [("Gene".toList, ["g".toList]), ("ID".toList, ["i".toList, "j".toList]),
+    ("genes".toList, []), ("note".toList, ["n".toList]), ("feature_name".toList, ["f".toList])] = true := by decide
+example : ranksDistinct nameOrder [("Gene".toList, ["g".toList]), ("LABEL".toList, ["l".toList]),
+    ("feature_name".toList, ["f".toList])] = true := by decide
+example : ∀ e ∈ ([("Gene".toList, ["g".toList]), ("id".toList, ["i".toList])] : QDict),
+    rank nameOrder e.1 ≠ some 0 ∧ rank idOrder e.1 ≠ some 0 ∧ e.1.getLast? ≠ some '\n' := by decide
+example : keysDistinct [("a".toList, ["y".toList, "x".toList]), ("b".toList, [])] = true := by decide
+
 end BioCantor.Props.C18
